@@ -11,6 +11,7 @@
 //                                                              when a cache directory is given), plus Hessian times image
 //   c14_lmtoproj ecat <out.ndjson> <runs> <words>             synthetic ECAT8 32-bit words through the real CListRecordECAT8_32bit
 //   c14_lmtoproj allbatch <out.ndjson> <runs> <maxlen>        every num_segments_in_memory x num_TOF_bins_in_memory
+//   c14_lmtoproj reuse <out.ndjson> <runs> <maxlen> [<scratch>]  histories of one LmToProjData object (one setter between executions)
 //
 // Trace lines of a histogramming run (one execution = Config ... End):
 //   Config   scanner + template geometry + all LmToProjData settings + frame definitions (ms)
@@ -198,18 +199,87 @@ struct Settings {
 
 static long g_cfg_id = 0;
 
-// one execution of the real LmToProjData on (geometry, settings, stream)
-static void run_hist(vh::Trace& tr, const Geo& g, const Settings& st, const std::vector<vh::LmRec>& recs, bool snapshots) {
+static bool same_geo(const Geo& a, const Geo& b) {
+  return a.N == b.N && a.R == b.R && a.maxT == b.maxT && a.span == b.span && a.maxDelta == b.maxDelta && a.mash == b.mash && a.tofMash == b.tofMash
+         && a.numTang == b.numTang && a.segReduce == b.segReduce;
+}
+static bool same_recs(const std::vector<vh::LmRec>& a, const std::vector<vh::LmRec>& b) {
+  if (a.size() != b.size()) return false;
+  for (size_t i = 0; i < a.size(); ++i) if (a[i].as_ints() != b[i].as_ints()) return false;
+  return true;
+}
+
+// One LmToProjData object that is used for several executions: between two set_up() + process_data() only the
+// setters of the settings that differ from the previous execution are called.
+struct Session {
+  LmProbe l2p;
+  bool used = false;
+  Settings cur;
+  Geo g;
+  std::vector<vh::LmRec> recs;
+  std::shared_ptr<vh::VhListModeData<>> lm;
+  std::string changed;
+  // history of the object: did an earlier execution use time frames (num_events_to_store = 0); smallest maximum
+  // segment number of the templates of the earlier executions
+  bool had_time_mode = false;
+  int min_max_seg = 1000;
+};
+
+// one execution of the real LmToProjData on (geometry, settings, stream); ses: re-use that object
+static void run_hist(vh::Trace& tr, const Geo& g, const Settings& st, const std::vector<vh::LmRec>& recs, bool snapshots, Session* ses = nullptr) {
   shared_ptr<Scanner> sc = vh::make_scanner(g.N, g.R, g.maxT);
   shared_ptr<ProjDataInfo> templ = make_template(sc, g);
+  Session local;
+  Session& S = ses ? *ses : local;
+  LmProbe& l2p = S.l2p;
+  const bool reuse = S.used;
+  const bool file_out = !st.file_prefix.empty();
+  // the list-mode data reports the scanner's uncompressed geometry, as real list-mode files do
+  shared_ptr<ProjDataInfo> lm_pdi = ProjDataInfo::construct_proj_data_info(sc, 1, g.R - 1, g.N / 2, g.N - 1, false, g.maxT > 0 ? 1 : 0);
+  const bool new_input = !reuse || !same_recs(S.recs, recs) || S.cur.hasD != st.hasD;
+  if (new_input) {
+    S.lm = std::make_shared<vh::VhListModeData<>>(lm_pdi, recs, st.hasD);
+    S.lm->observer = [&tr](const char* what, long a, long b) {
+      if (!std::strcmp(what, "next")) { if (g_log_reads) tr.emit(vh::Json("R").num("i", a)); }
+      else if (!std::strcmp(what, "save")) tr.emit(vh::Json("Sv").num("id", a).num("pos", b));
+      else if (!std::strcmp(what, "set")) tr.emit(vh::Json("St").num("id", a).num("pos", b));
+      else tr.emit(vh::Json("Reset"));
+    };
+  }
+  auto lm = S.lm;
+  // ---- setters (all of them for a new object; only those of the changed settings for a re-used one)
+  Settings eff = st;
+  std::string msg;
+  bool err = vh::threw([&] {
+    if (new_input) l2p.set_input_data(lm);
+    if (!reuse || !same_geo(S.g, g)) l2p.set_template_proj_data_info_sptr(templ);
+    if (!reuse || S.cur.file_prefix != st.file_prefix) l2p.set_output_filename_prefix(file_out ? st.file_prefix : std::string("c14-unused"));
+    if (!reuse || S.cur.segIM != st.segIM) l2p.set_num_segments_in_memory(st.segIM);
+    if (!reuse || S.cur.tofIM != st.tofIM) l2p.set_num_tof_bins_in_memory(st.tofIM);
+    if (!reuse) l2p.set_max_segment_num_to_process(st.maxSegProc);
+    if (!reuse || S.cur.storeP != st.storeP) l2p.set_store_prompts(st.storeP);
+    if (!reuse || S.cur.storeD != st.storeD) l2p.set_store_delayeds(st.storeD);
+    if (!reuse || S.cur.nStore != st.nStore) l2p.set_num_events_to_store(st.nStore);
+    if ((!reuse && !st.frames.empty()) || (reuse && S.cur.frames != st.frames)) {
+      std::vector<std::pair<double, double>> ft;
+      for (auto& f : st.frames) ft.push_back({ (unsigned long)f.first / 1000., (unsigned long)f.second / 1000. });
+      l2p.set_time_frame_definitions(TimeFrameDefinitions(ft));
+    }
+  }, &msg);
+  if (reuse) {
+    // the settings of the execution are what the object itself reports now
+    eff.segIM = l2p.get_num_segments_in_memory(); eff.tofIM = l2p.get_num_tof_bins_in_memory();
+    eff.storeP = l2p.get_store_prompts(); eff.storeD = l2p.get_store_delayeds(); eff.nStore = l2p.get_num_events_to_store();
+  }
   {
     vh::Json j("Config");
-    j.num("id", ++g_cfg_id).str("cls", st.cls);
+    j.num("id", ++g_cfg_id).str("cls", st.cls).boolean("reuse", reuse).str("changed", reuse ? S.changed : std::string(""))
+        .boolean("hadTimeMode", S.had_time_mode).num("histMaxSeg", S.min_max_seg);
     geo_fields(j, g, *templ);
     std::vector<std::vector<long long>> fr;
     for (auto& f : st.frames) fr.push_back({ f.first, f.second });
-    j.num("segIM", st.segIM).num("tofIM", st.tofIM).num("maxSegProc", st.maxSegProc).boolean("storeP", st.storeP).boolean("storeD", st.storeD)
-        .boolean("hasD", st.hasD).boolean("fresh", st.fresh).boolean("fileOut", !st.file_prefix.empty()).num("nStore", st.nStore).arr2("frames", fr).num("len", (long long)recs.size());
+    j.num("segIM", eff.segIM).num("tofIM", eff.tofIM).num("maxSegProc", st.maxSegProc).boolean("storeP", eff.storeP).boolean("storeD", eff.storeD)
+        .boolean("hasD", st.hasD).boolean("fresh", st.fresh).boolean("fileOut", file_out).num("nStore", eff.nStore).arr2("frames", fr).num("len", (long long)recs.size());
     tr.emit(j);
   }
   {
@@ -217,19 +287,8 @@ static void run_hist(vh::Trace& tr, const Geo& g, const Settings& st, const std:
     for (auto& r : recs) rr.push_back(r.as_ints());
     tr.emit(vh::Json("Stream").arr2("recs", rr));
   }
-  // the list-mode data reports the scanner's uncompressed geometry, as real list-mode files do
-  shared_ptr<ProjDataInfo> lm_pdi = ProjDataInfo::construct_proj_data_info(sc, 1, g.R - 1, g.N / 2, g.N - 1, false, g.maxT > 0 ? 1 : 0);
-  auto lm = std::make_shared<vh::VhListModeData<>>(lm_pdi, recs, st.hasD);
-  lm->observer = [&](const char* what, long a, long b) {
-    if (!std::strcmp(what, "next")) { if (g_log_reads) tr.emit(vh::Json("R").num("i", a)); }
-    else if (!std::strcmp(what, "save")) tr.emit(vh::Json("Sv").num("id", a).num("pos", b));
-    else if (!std::strcmp(what, "set")) tr.emit(vh::Json("St").num("id", a).num("pos", b));
-    else tr.emit(vh::Json("Reset"));
-  };
-  LmProbe l2p;
   int cur_frame = 0;
   shared_ptr<ProjData> out;
-  const bool file_out = !st.file_prefix.empty();
   g_hook = [&](const char* site, long a, long b, long c, long d) {
     if (!std::strcmp(site, "lm.batch")) {
       // everything saved so far in this frame is in the output now
@@ -251,29 +310,14 @@ static void run_hist(vh::Trace& tr, const Geo& g, const Settings& st, const std:
     if (cur_frame > 0 && l2p.output()) emit_out(tr, *l2p.output(), cur_frame, false);
     cur_frame = (int)f;
     tr.emit(vh::Json("NewFrame").num("f", f));
-    if (st.fresh || !l2p.output()) {
+    if (st.fresh || !l2p.output() || (reuse && f == 1)) {
       out.reset(new ProjDataInMemory(lm->get_exam_info_sptr(), l2p.templ()));
       l2p.replace_output(out);
     }
   };
-  std::string msg;
-  bool err = vh::threw([&] {
-    l2p.set_input_data(lm);
-    l2p.set_template_proj_data_info_sptr(templ);
-    l2p.set_output_filename_prefix(file_out ? st.file_prefix : std::string("c14-unused"));
-    l2p.set_num_segments_in_memory(st.segIM);
-    l2p.set_num_tof_bins_in_memory(st.tofIM);
-    l2p.set_max_segment_num_to_process(st.maxSegProc);
-    l2p.set_store_prompts(st.storeP);
-    l2p.set_store_delayeds(st.storeD);
-    l2p.set_num_events_to_store(st.nStore);
-    if (!st.frames.empty()) {
-      std::vector<std::pair<double, double>> ft;
-      for (auto& f : st.frames) ft.push_back({ (unsigned long)f.first / 1000., (unsigned long)f.second / 1000. });
-      l2p.set_time_frame_definitions(TimeFrameDefinitions(ft));
-    }
-    l2p.set_up();
-  }, &msg);
+  // process_data() reads on from the current position of the stream: whoever re-uses the list-mode data rewinds it
+  if (reuse && !new_input) lm->reset();
+  if (!err) err = vh::threw([&] { l2p.set_up(); }, &msg);
   {
     vh::Json j("SetUp");
     j.boolean("err", err).num("segIM", err ? 0 : l2p.get_num_segments_in_memory()).num("tofIM", err ? 0 : l2p.get_num_tof_bins_in_memory());
@@ -287,6 +331,10 @@ static void run_hist(vh::Trace& tr, const Geo& g, const Settings& st, const std:
     else if (!err && l2p.output()) emit_out(tr, *l2p.output(), cur_frame, false);
   }
   g_hook = nullptr;
+  l2p.on_new_frame = nullptr;
+  S.used = true; S.cur = st; S.g = g; S.recs = recs;
+  S.had_time_mode = S.had_time_mode || st.nStore == 0;
+  S.min_max_seg = std::min(S.min_max_seg, templ->get_max_segment_num());
   vh::Json e("End");
   e.boolean("err", err);
   if (err) e.str("msg", msg);
@@ -376,6 +424,55 @@ static void mode_hist(vh::Trace& tr, long runs, int maxlen, int stage, vh::Rng& 
       for (size_t i = 1; i < base.frames.size(); ++i) contiguous = contiguous && base.frames[i].first == base.frames[i - 1].second;
       if (contiguous) { st.cls = base.cls == "sparse" ? "sparse" : "whole"; run_hist(tr, g, st, recs, false); }
     }
+  }
+}
+
+// histories of ONE LmToProjData object: execution, then one setting changed through its public setter, set_up() and
+// process_data() again, and so on; every execution must give the histogram of its CURRENT settings
+static void mode_reuse(vh::Trace& tr, long runs, int maxlen, vh::Rng& rng) {
+  for (long run = 0; run < runs; ++run) {
+    Geo g = random_geo(rng, 0, true);
+    shared_ptr<Scanner> sc = vh::make_scanner(g.N, g.R, g.maxT);
+    shared_ptr<ProjDataInfo> templ = make_template(sc, g);
+    Settings st;
+    st.cls = "reuse";
+    st.fresh = true;
+    const int base = (int)(run % 3);           // 0: frames, 1: no frame definitions, 2: num_events_to_store
+    std::vector<vh::LmRec> recs = random_stream(rng, g, rng.range(6, maxlen), true, false, true);
+    if (base == 0) st.frames = random_frames(rng, 3, last_mark(recs));
+    if (base == 2) st.nStore = rng.range(1, 6);
+    const bool files = !g_scratch.empty() && run % 4 == 3 && (g.maxT == 0 || templ->get_num_tof_poss() > 1);
+    if (files) st.file_prefix = g_scratch + "/c14reuse" + std::to_string(run) + "a";
+    st.segIM = rng.coin() ? -1 : 1; st.tofIM = rng.coin() ? -1 : 1;
+    Session ses;
+    run_hist(tr, g, st, recs, false, &ses);
+    std::vector<std::string> kinds{ "storeD", "storeP", "segIM", "tofIM", "input", "template", "storeD" };
+    if (st.frames.empty()) { kinds.push_back("nStore"); kinds.push_back("nStore"); }
+    if (st.nStore == 0) kinds.push_back("frames");
+    if (files) kinds.push_back("prefix");
+    const int steps = rng.range(3, 5);
+    for (int k = 0; k < steps; ++k) {
+      const std::string kind = (k == 0 && run % 2 == 0) ? std::string(st.storeP ? "storeD" : "storeP") : rng.pick(kinds);
+      Settings nx = st;
+      Geo ng = g;
+      std::vector<vh::LmRec> nrecs = recs;
+      if (kind == "storeD") { if (!st.storeP) continue; nx.storeD = !st.storeD; }
+      else if (kind == "storeP") { if (!st.storeD) continue; nx.storeP = !st.storeP; }
+      else if (kind == "segIM") nx.segIM = st.segIM == 1 ? 2 : 1;
+      else if (kind == "tofIM") nx.tofIM = st.tofIM == 1 ? 2 : 1;
+      else if (kind == "input") nrecs = random_stream(rng, g, rng.range(6, maxlen), true, false, true);
+      else if (kind == "template") { do { ng = random_geo(rng, 0, true); } while (ng.N != g.N || ng.R != g.R || ng.maxT != g.maxT || same_geo(ng, g)); }
+      else if (kind == "nStore") { if (!st.frames.empty()) continue; nx.nStore = st.nStore == 0 ? rng.range(1, 6) : (rng.coin() ? 0 : st.nStore + rng.range(1, 3)); }
+      else if (kind == "frames") { if (st.nStore != 0) continue; nx.frames = st.frames.empty() ? random_frames(rng, 3, last_mark(recs)) : (rng.coin() ? std::vector<std::pair<long, long>>() : random_frames(rng, 3, last_mark(recs))); if (nx.frames == st.frames) continue; }
+      else if (kind == "prefix") nx.file_prefix = g_scratch + "/c14reuse" + std::to_string(run) + (char)('b' + k);
+      ses.changed = kind;
+      run_hist(tr, ng, nx, nrecs, false, &ses);
+      st = nx; g = ng; recs = nrecs;
+    }
+    if (files)
+      for (char c = 'a'; c <= 'h'; ++c)
+        for (int f = 1; f <= 8; ++f)
+          for (const char* ext : { ".hs", ".s" }) std::remove((g_scratch + "/c14reuse" + std::to_string(run) + c + "_f" + std::to_string(f) + "g1d0b0" + ext).c_str());
   }
 }
 
@@ -500,9 +597,47 @@ static void emit_hessians(vh::Trace& tr, LmObjProbe& lmobj, PD& pdobj, const sha
   }
 }
 
+// number of subsets: a divisor of the number of views that the projection-data objective function accepts with
+// this projector (its set_up refuses unbalanced subsets); 3 and more subsets preferred in two of three executions
+template <class MakePair>
+static int choose_subsets(vh::Rng& rng, const shared_ptr<ProjDataInfo>& templ, const shared_ptr<Img>& image, MakePair make_pair) {
+  const int nv = templ->get_num_views();
+  std::vector<int> big, small;
+  for (int d = 1; d <= nv; ++d) if (nv % d == 0) (d >= 3 ? big : small).push_back(d);
+  std::vector<int> order;
+  auto shuffled = [&](std::vector<int> v) { for (size_t k = v.size(); k > 1; --k) std::swap(v[k - 1], v[rng.next() % k]); return v; };
+  const bool prefer_big = rng.range(0, 2) != 0;
+  for (int d : shuffled(prefer_big ? big : small)) order.push_back(d);
+  for (int d : shuffled(prefer_big ? small : big)) order.push_back(d);
+  shared_ptr<ExamInfo> ei(new ExamInfo); ei->imaging_modality = ImagingModality::PT;
+  for (int n : order) {
+    if (n == 1) return 1;
+    PoissonLogLikelihoodWithLinearModelForMeanAndProjData<Img> p;
+    shared_ptr<ProjData> zeros(new ProjDataInMemory(ei, templ));
+    p.set_proj_data_sptr(zeros);
+    p.set_projector_pair_sptr(make_pair());
+    p.set_num_subsets(n);
+    p.set_use_subset_sensitivities(true);
+    p.set_recompute_sensitivity(true);
+    p.set_zero_seg0_end_planes(false);
+    if (!vh::threw([&] { if (p.set_up(image) != Succeeded::yes) error("refused"); })) return n;
+  }
+  return 1;
+}
+
+// "maximum absolute segment number to process" of both objective functions: special values -1 (all), 0, 1, max, max + 1
+static int choose_max_seg(vh::Rng& rng, const ProjDataInfo& templ) {
+  const int mx = templ.get_max_segment_num();
+  static long count = 0;
+  ++count;
+  if (count % 5 == 2) return 0;
+  if (count % 5 == 4) return rng.pick(std::vector<int>{ 1, mx, mx + 1, 0 });
+  return -1;
+}
+
 static void run_grad(vh::Trace& tr, vh::Rng& rng, int stage) {
   Geo g;
-  g.N = rng.pick(std::vector<int>{ 8, 12, 16 });
+  g.N = rng.pick(std::vector<int>{ 8, 12, 16, 16, 24 });
   g.R = rng.range(2, 3);
   const bool tof = rng.range(0, 2) == 0;
   g.maxT = tof ? 5 : 0; g.tofMash = tof ? 1 : 0;
@@ -512,7 +647,15 @@ static void run_grad(vh::Trace& tr, vh::Rng& rng, int stage) {
   g.segReduce = 0;
   shared_ptr<Scanner> sc = vh::make_scanner(g.N, g.R, g.maxT);
   shared_ptr<ProjDataInfo> templ = make_template(sc, g);
-  const int numSubsets = (templ->get_num_views() % 2 == 0 && rng.coin()) ? 2 : 1;
+  // image: positive dyadic values
+  const int nz = 2 * g.R - 1, nxy = 2 * (g.N / 4) + 5;
+  const float rs = sc->get_ring_spacing();
+  shared_ptr<Img> image(new VoxelsOnCartesianGrid<float>(IndexRange3D(0, nz - 1, -(nxy / 2), nxy / 2, -(nxy / 2), nxy / 2), CartesianCoordinate3D<float>(0, 0, 0),
+                                                         CartesianCoordinate3D<float>(rs / 2, sc->get_inner_ring_radius() * 2.2F / nxy, sc->get_inner_ring_radius() * 2.2F / nxy)));
+  for (auto it = image->begin_all(); it != image->end_all(); ++it) *it = rng.range(1, 8) / 4.F;
+  const int numSubsets = choose_subsets(rng, templ, image, [] {
+    return shared_ptr<ProjectorByBinPair>(new ProjectorByBinPairUsingProjMatrixByBin(shared_ptr<ProjMatrixByBin>(new ProjMatrixByBinUsingRayTracing))); });
+  const int maxSegProc = choose_max_seg(rng, *templ);
   const bool hasAdd = rng.coin();
   const int K = 12;
   // stream: prompts (and delayeds, which the list-mode objective ignores), frame [125, 500) ms selected by frame number
@@ -528,7 +671,7 @@ static void run_grad(vh::Trace& tr, vh::Rng& rng, int stage) {
     std::vector<std::vector<long long>> fr;
     if (frame_num > 0) fr.push_back({ frames[frame_num - 1].first, frames[frame_num - 1].second });
     j.num("numSubsets", numSubsets).boolean("hasAdd", hasAdd).num("k", K).arr2("frames", fr).num("frameNum", frame_num).num("len", (long long)recs.size())
-        .num("cache", cm.cache).boolean("disk", cm.disk);
+        .num("cache", cm.cache).boolean("disk", cm.disk).num("maxSegProc", maxSegProc);
     pdi_fields(j, *templ);
     tr.emit(j);
     std::vector<std::vector<long long>> rr;
@@ -557,12 +700,6 @@ static void run_grad(vh::Trace& tr, vh::Rng& rng, int stage) {
       l2p.process_data();
       emit_out(tr, *hist, 1, false);
     }
-    // image: positive dyadic values
-    const int nz = 2 * g.R - 1, nxy = 2 * (g.N / 4) + 5;
-    const float rs = sc->get_ring_spacing();
-    shared_ptr<Img> image(new VoxelsOnCartesianGrid<float>(IndexRange3D(0, nz - 1, -(nxy / 2), nxy / 2, -(nxy / 2), nxy / 2), CartesianCoordinate3D<float>(0, 0, 0),
-                                                           CartesianCoordinate3D<float>(rs / 2, sc->get_inner_ring_radius() * 2.2F / nxy, sc->get_inner_ring_radius() * 2.2F / nxy)));
-    for (auto it = image->begin_all(); it != image->end_all(); ++it) *it = rng.range(1, 8) / 4.F;
     shared_ptr<ProjData> add;
     if (hasAdd) {
       add.reset(new ProjDataInMemory(lm->get_exam_info_sptr(), templ));
@@ -590,6 +727,7 @@ static void run_grad(vh::Trace& tr, vh::Rng& rng, int stage) {
       lmobj.set_frame_num(frame_num);
     }
     apply_cache_before_set_up(lmobj, cm);
+    lmobj.set_max_segment_num_to_process(maxSegProc);
     if (lmobj.set_up(image) != Succeeded::yes) error("list-mode objective set_up failed");
     apply_cache_after_set_up(lmobj, cm);
     PoissonLogLikelihoodWithLinearModelForMeanAndProjData<Img> pdobj;
@@ -597,6 +735,7 @@ static void run_grad(vh::Trace& tr, vh::Rng& rng, int stage) {
     pdobj.set_projector_pair_sptr(shared_ptr<ProjectorByBinPair>(new ProjectorByBinPairUsingProjMatrixByBin(pm2)));
     if (hasAdd) pdobj.set_additive_proj_data_sptr(add);
     pdobj.set_num_subsets(numSubsets);
+    pdobj.set_max_segment_num_to_process(maxSegProc);
     pdobj.set_use_subset_sensitivities(true);
     pdobj.set_recompute_sensitivity(true);
     pdobj.set_zero_seg0_end_planes(false);
@@ -630,7 +769,7 @@ static void run_grad(vh::Trace& tr, vh::Rng& rng, int stage) {
 // The driver logs the matrix, the image exponents and the additive codes; TLC computes what must come out.
 static void run_gradx(vh::Trace& tr, vh::Rng& rng, int stage) {
   Geo g;
-  g.N = 8;
+  g.N = rng.range(0, 2) == 0 ? 12 : 8;
   g.R = rng.range(2, 3);
   const int tofkind = rng.range(0, 3);            // 0,1: non-TOF, 2: 3 TOF bins, 3: 5 TOF bins
   g.maxT = tofkind < 2 ? 0 : tofkind == 2 ? 3 : 5; g.tofMash = g.maxT > 0 ? 1 : 0;
@@ -640,7 +779,6 @@ static void run_gradx(vh::Trace& tr, vh::Rng& rng, int stage) {
   g.segReduce = 0;
   shared_ptr<Scanner> sc = vh::make_scanner(g.N, g.R, g.maxT);
   shared_ptr<ProjDataInfo> templ = make_template(sc, g);
-  const int numSubsets = (templ->get_num_views() % 2 == 0 && rng.coin()) ? 2 : 1;
   const bool hasAdd = rng.coin();
   const int K = 8;
   shared_ptr<ExamInfo> ei(new ExamInfo); ei->imaging_modality = ImagingModality::PT;
@@ -651,6 +789,7 @@ static void run_gradx(vh::Trace& tr, vh::Rng& rng, int stage) {
   const auto vox = vh::xm_voxels(*image);
   std::vector<int> lam;                    // exponents: image value 2^lam
   for (auto& v : vox) { int e = rng.range(0, 2); lam.push_back(e); (*image)[v[0]][v[1]][v[2]] = (float)(1 << e); }
+  const int maxSegProc = choose_max_seg(rng, *templ);
   // rows, in the order (TOF bin, segment, axial position, view, tangential position)
   shared_ptr<vh::ExplicitMatrixData> data(new vh::ExplicitMatrixData);
   std::vector<std::vector<long long>> rows;
@@ -682,6 +821,7 @@ static void run_gradx(vh::Trace& tr, vh::Rng& rng, int stage) {
           }
       if (hasAdd) add->set_segment(aseg);
     }
+  const int numSubsets = choose_subsets(rng, templ, image, [&] { return shared_ptr<ProjectorByBinPair>(vh::make_explicit_projector_pair(data)); });
   std::vector<vh::LmRec> recs = random_stream(rng, g, rng.range(10, stage ? 100 : 50), true, false, true);
   std::vector<std::pair<long, long>> frames{ { 0, 125 }, { 125, 500 }, { 500, 1000 } };
   const CacheMode cm = random_cache(rng, recs);
@@ -694,7 +834,7 @@ static void run_gradx(vh::Trace& tr, vh::Rng& rng, int stage) {
     std::vector<std::vector<long long>> fr;
     if (frame_num > 0) fr.push_back({ frames[frame_num - 1].first, frames[frame_num - 1].second });
     j.num("numSubsets", numSubsets).boolean("hasAdd", hasAdd).num("k", K).arr2("frames", fr).num("frameNum", frame_num).num("len", (long long)recs.size())
-        .num("cache", cm.cache).boolean("disk", cm.disk);
+        .num("cache", cm.cache).boolean("disk", cm.disk).num("maxSegProc", maxSegProc);
     pdi_fields(j, *templ);
     j.num("nvox", (long long)vox.size()).arr("lam", lam).arr2("rows", rows);
     tr.emit(j);
@@ -737,6 +877,7 @@ static void run_gradx(vh::Trace& tr, vh::Rng& rng, int stage) {
       lmobj.set_frame_num(frame_num);
     }
     apply_cache_before_set_up(lmobj, cm);
+    lmobj.set_max_segment_num_to_process(maxSegProc);
     if (lmobj.set_up(image) != Succeeded::yes) error("list-mode objective set_up failed");
     apply_cache_after_set_up(lmobj, cm);
     PoissonLogLikelihoodWithLinearModelForMeanAndProjData<Img> pdobj;
@@ -744,6 +885,7 @@ static void run_gradx(vh::Trace& tr, vh::Rng& rng, int stage) {
     pdobj.set_projector_pair_sptr(vh::make_explicit_projector_pair(data));
     if (hasAdd) pdobj.set_additive_proj_data_sptr(add);
     pdobj.set_num_subsets(numSubsets);
+    pdobj.set_max_segment_num_to_process(maxSegProc);
     pdobj.set_use_subset_sensitivities(true);
     pdobj.set_recompute_sensitivity(true);
     pdobj.set_zero_seg0_end_planes(false);
@@ -847,6 +989,7 @@ int main(int argc, char** argv) {
   vh::Rng rng(vh::seed_from_env());
   if ((mode == "grad" || mode == "gradx") && argc > 5) g_cache_dir = argv[5];
   if (mode == "hist") { if (argc > 6) g_scratch = argv[6]; mode_hist(tr, runs, argc > 4 ? atoi(argv[4]) : 40, argc > 5 ? atoi(argv[5]) : 0, rng); }
+  else if (mode == "reuse") { if (argc > 5) g_scratch = argv[5]; mode_reuse(tr, runs, argc > 4 ? atoi(argv[4]) : 30, rng); }
   else if (mode == "allbatch") mode_allbatch(tr, runs, argc > 4 ? atoi(argv[4]) : 30, rng);
   else if (mode == "long") mode_long(tr, runs, argc > 4 ? atoi(argv[4]) : 2000, rng);
   else if (mode == "ecat") for (long i = 0; i < runs; ++i) run_ecat(tr, rng, argc > 4 ? atoi(argv[4]) : 40);
